@@ -2,7 +2,7 @@
 //! duplicates and permutations; query items. Everything is drawn from the
 //! choice sequence only; byte 0 always selects the simplest alternative.
 
-use crate::model::{bit, flip, sorted_set, Leaf};
+use crate::model::{bit, flip, set_root, set_val, sorted_set, Leaf};
 use vcore::Src;
 
 /// bit positions at which leaves are made to part
@@ -44,7 +44,47 @@ fn flip_some(s: &mut Src, v: &mut Leaf, allow_zero: bool) {
 
 pub fn gen_set(s: &mut Src, min: usize) -> GenSet {
     let base = gen_base(s);
-    let size_class = s.weighted(&[2, 4, 8, 16, 12, 1]);
+    let size_class = s.weighted(&[2, 4, 8, 16, 12, 1, 1]);
+    if size_class == 6 {
+        // a leaf whose VALUE is the hash of the sub-tree next to it: all other
+        // leaves lie in one half of the key space, and the extra leaf — the model's
+        // hash of that half (as an inner node and as a root of its own) — happens
+        // to start with the other bit (retried with a tweaked group, two tries on
+        // average). Anybody can compute such a value from the set or read it off a
+        // proof; leaves and node hashes are both just 32 bytes.
+        let side = s.bool();
+        let k = s.range(2, 5);
+        let mut group: Vec<Leaf> = vec![];
+        for _ in 0..k {
+            let mut v = base;
+            flip_some(s, &mut v, true);
+            if bit(&v, 0) != side {
+                flip(&mut v, 0);
+            }
+            group.push(v);
+        }
+        let mut list = group.clone();
+        for attempt in 0..12usize {
+            let g = sorted_set(&group);
+            if g.len() >= 2 {
+                let cands = [set_val(&g, 1).hash, set_root(&g)];
+                let hits: Vec<Leaf> = cands.iter().copied().filter(|c| bit(c, 0) != side).collect();
+                if !hits.is_empty() {
+                    list = group.clone();
+                    list.push(hits[0]);
+                    break;
+                }
+            }
+            // tweak one member (stays in the same half) and try again
+            let i = attempt % group.len();
+            flip(&mut group[i], 200 + attempt);
+        }
+        if s.bool() {
+            permute(s, &mut list);
+        }
+        let set = sorted_set(&list);
+        return GenSet { base, list, set };
+    }
     if size_class == 5 {
         // a "staircase": two leaves that part only at bit 255 plus one leaf
         // branching off the base's path at (almost) every other bit position.
